@@ -4,6 +4,7 @@ CONSTANTS
   Bufs2 = {}
   Modes = {0}
   Long = TRUE
+  BSizes = {}
   Track = TRUE
 INIT Init
 NEXT Next
